@@ -1,0 +1,27 @@
+//go:build verif
+
+package parse
+
+import "github.com/simimpact/srsim/pkg/logic/gcs/ast"
+
+// This file is compiled only with -tags verif.  It adds nothing to the normal build; it lets
+// the verification harness observe the lexer's token stream and the parser's cursor.
+
+// LexAll runs the lexer over src to completion and returns every token it sends, in order
+// (the last one is ItemEOF or ItemError).  A lexer panic is not recovered: it happens in the
+// lexing goroutine, exactly as under Parse.
+func LexAll(src string) []ast.Token {
+	l := lex(src)
+	var out []ast.Token
+	for t := range l.items {
+		out = append(out, t)
+	}
+	return out
+}
+
+// TokensPulled is the number of tokens the parser has received from the lexer so far
+// (tokens received after the channel was closed are zero Tokens and are counted too).
+func (p *Parser) TokensPulled() int { return len(p.token) }
+
+// Cursor is the index of the last token handed out by next (-1 before the first).
+func (p *Parser) Cursor() int { return p.pos }
